@@ -28,7 +28,10 @@ fn main() {
         i += 1;
     }
     // panics inside guarded calls are outcomes, not noise
-    std::panic::set_hook(Box::new(|_| {}));
+    std::panic::set_hook(Box::new(|info| {
+        let msg = info.to_string();
+        if let Ok(mut g) = proto::LAST_PANIC.lock() { *g = msg.chars().take(300).collect(); }
+    }));
     let mut ctx = Ctx::default();
     let mut rng = prng::Rng::new(seed);
     if !run_block(&block, &mut ctx, &mut rng, &tier) {
